@@ -22,3 +22,195 @@ pub fn multi_error_text(p: &mut Prng) -> String {
     }
     s
 }
+
+use crate::genp::project::Project;
+use crate::world::Files;
+
+#[derive(Clone, Debug, PartialEq, serde::Serialize, serde::Deserialize)]
+pub enum Illegal {
+    /// P names Q::item, Q is in the project (loaded through somebody else) but P does not import it
+    NotImported,
+    /// import of a package with no directory
+    MissingPackage,
+    /// a file in a package directory declares another package name
+    MisnamedPackage,
+    /// an import back edge (cycle through two or more packages)
+    Cycle,
+    /// a package imports itself
+    SelfImport,
+    /// a library imports Main
+    CycleViaMain,
+    /// impl of a foreign trait for a foreign type
+    OrphanImpl,
+    /// two impls of the same (trait, type)
+    DuplicateImpl,
+    /// reference to an item the imported package does not have
+    UnknownItem,
+}
+
+pub const ILLEGAL_KINDS: [Illegal; 9] = [
+    Illegal::NotImported,
+    Illegal::MissingPackage,
+    Illegal::MisnamedPackage,
+    Illegal::Cycle,
+    Illegal::SelfImport,
+    Illegal::CycleViaMain,
+    Illegal::OrphanImpl,
+    Illegal::DuplicateImpl,
+    Illegal::UnknownItem,
+];
+
+fn reaches(proj: &Project, from: usize, to: usize) -> bool {
+    if from == to {
+        return true;
+    }
+    proj.pkgs[from].imports.iter().any(|&i| reaches(proj, i, to))
+}
+
+/// Build (legal twin, illegal project) from a legal project: the twin contains the helper items
+/// the illegality needs, the illegal one adds exactly one illegality. None if this project has
+/// no place for that kind.
+pub fn inject(proj: &Project, kind: &Illegal, p: &mut Prng) -> Option<(Files, Files, String)> {
+    let n = proj.pkgs.len();
+    let mut twin = proj.clone();
+    let desc;
+    let mut bad;
+    match kind {
+        Illegal::NotImported => {
+            // P does not import Q, Q != P, Q is a library
+            let mut cands = Vec::new();
+            for pi in 0..n {
+                for qi in 1..n {
+                    if qi != pi && !proj.pkgs[pi].imports.contains(&qi) {
+                        cands.push((pi, qi));
+                    }
+                }
+            }
+            if cands.is_empty() {
+                return None;
+            }
+            let (pi, qi) = *p.pick(&cands);
+            twin.pkgs[qi].raw.push_str("\nfn zz_pub() -> int32 {\n    7\n}\n");
+            bad = twin.clone();
+            bad.pkgs[pi].raw_last.push_str(&format!("\nfn zz_bad() -> int32 {{\n    {}::zz_pub()\n}}\n", proj.pkgs[qi].name));
+            desc = format!("{} uses {}::zz_pub without importing {}", proj.pkgs[pi].name, proj.pkgs[qi].name, proj.pkgs[qi].name);
+        }
+        Illegal::MissingPackage => {
+            let pi = p.usize(n);
+            bad = twin.clone();
+            bad.pkgs[pi].extra_imports.push("Zmissing".to_string());
+            desc = format!("{} imports Zmissing which has no directory", proj.pkgs[pi].name);
+        }
+        Illegal::MisnamedPackage => {
+            if n < 2 {
+                return None;
+            }
+            let pi = 1 + p.usize(n - 1);
+            let t = twin.render();
+            let mut b = t.clone();
+            let files = proj.pkg_files(pi);
+            let f = p.pick(&files).clone();
+            let text = String::from_utf8_lossy(&b[&f]).to_string();
+            let other = if p.chance(1, 2) && n > 2 {
+                let mut o = 1 + p.usize(n - 1);
+                if o == pi {
+                    o = if pi + 1 < n { pi + 1 } else { 1 };
+                }
+                proj.pkgs[o].name.clone()
+            } else {
+                "Zother".to_string()
+            };
+            if other == proj.pkgs[pi].name {
+                return None;
+            }
+            let newtext = text.replacen(&format!("package {}", proj.pkgs[pi].name), &format!("package {other}"), 1);
+            b.insert(f.clone(), newtext.into_bytes());
+            return Some((t, b, format!("file {f} in directory {} declares package {other}", proj.pkgs[pi].name)));
+        }
+        Illegal::Cycle => {
+            let mut cands = Vec::new();
+            for pi in 1..n {
+                for qi in 1..n {
+                    if pi != qi && reaches(proj, pi, qi) {
+                        cands.push((pi, qi));
+                    }
+                }
+            }
+            if cands.is_empty() {
+                return None;
+            }
+            let (pi, qi) = *p.pick(&cands);
+            bad = twin.clone();
+            bad.pkgs[qi].extra_imports.push(proj.pkgs[pi].name.clone());
+            desc = format!("{} imports {} which (transitively) imports it", proj.pkgs[qi].name, proj.pkgs[pi].name);
+        }
+        Illegal::SelfImport => {
+            if n < 2 {
+                return None;
+            }
+            let pi = 1 + p.usize(n - 1);
+            bad = twin.clone();
+            bad.pkgs[pi].extra_imports.push(proj.pkgs[pi].name.clone());
+            desc = format!("{} imports itself", proj.pkgs[pi].name);
+        }
+        Illegal::CycleViaMain => {
+            if n < 2 {
+                return None;
+            }
+            let pi = 1 + p.usize(n - 1);
+            bad = twin.clone();
+            bad.pkgs[pi].extra_imports.push("Main".to_string());
+            desc = format!("{} imports Main", proj.pkgs[pi].name);
+        }
+        Illegal::OrphanImpl => {
+            let mut cands = Vec::new();
+            for pi in 0..n {
+                let im = &proj.pkgs[pi].imports;
+                if !im.is_empty() {
+                    cands.push(pi);
+                }
+            }
+            if cands.is_empty() {
+                return None;
+            }
+            let pi = *p.pick(&cands);
+            let qi = *p.pick(&proj.pkgs[pi].imports);
+            let ri = *p.pick(&proj.pkgs[pi].imports);
+            twin.pkgs[qi].raw.push_str("\ntrait ZzT {\n    fn zz(Self) -> int32;\n}\n");
+            twin.pkgs[ri].raw.push_str("\nstruct ZzS {\n    x: int32,\n}\n");
+            bad = twin.clone();
+            let q = &proj.pkgs[qi].name;
+            let r = &proj.pkgs[ri].name;
+            bad.pkgs[pi].raw_last.push_str(&format!(
+                "\nimpl {q}::ZzT for {r}::ZzS {{\n    fn zz(self: {r}::ZzS) -> int32 {{\n        1\n    }}\n}}\n"
+            ));
+            desc = format!("{} implements foreign trait {q}::ZzT for foreign type {r}::ZzS", proj.pkgs[pi].name);
+        }
+        Illegal::DuplicateImpl => {
+            let pi = p.usize(n);
+            twin.pkgs[pi].raw.push_str(
+                "\ntrait ZzT {\n    fn zz(Self) -> int32;\n}\n\nstruct ZzS {\n    x: int32,\n}\n\nimpl ZzT for ZzS {\n    fn zz(self: ZzS) -> int32 {\n        1\n    }\n}\n",
+            );
+            bad = twin.clone();
+            bad.pkgs[pi].raw_last.push_str("\nimpl ZzT for ZzS {\n    fn zz(self: ZzS) -> int32 {\n        2\n    }\n}\n");
+            desc = format!("{} implements ZzT for ZzS twice", proj.pkgs[pi].name);
+        }
+        Illegal::UnknownItem => {
+            let mut cands = Vec::new();
+            for pi in 0..n {
+                if !proj.pkgs[pi].imports.is_empty() {
+                    cands.push(pi);
+                }
+            }
+            if cands.is_empty() {
+                return None;
+            }
+            let pi = *p.pick(&cands);
+            let qi = *p.pick(&proj.pkgs[pi].imports);
+            bad = twin.clone();
+            bad.pkgs[pi].raw_last.push_str(&format!("\nfn zz_bad() -> int32 {{\n    {}::zz_nope()\n}}\n", proj.pkgs[qi].name));
+            desc = format!("{} uses {}::zz_nope which does not exist", proj.pkgs[pi].name, proj.pkgs[qi].name);
+        }
+    }
+    Some((twin.render(), bad.render(), desc))
+}
